@@ -48,10 +48,16 @@ pub(crate) fn encode_bytes<B: AsRef<[u8]> + ?Sized, W: Write>(
     mut writer: W,
 ) -> AvroResult<usize> {
     let bytes = s.as_ref();
-    encode_long(bytes.len() as i64, &mut writer)?;
-    writer
-        .write(bytes)
-        .map_err(|e| Details::WriteBytes(e).into())
+    let len_bytes = encode_long(bytes.len() as i64, &mut writer)?;
+    Ok(len_bytes + write_bytes(bytes, &mut writer)?)
+}
+
+/// Write all of `bytes`, returning how many bytes were written.
+///
+/// [`Write::write`] may accept only a part of the buffer, so it can't be used here.
+fn write_bytes<W: Write>(bytes: &[u8], writer: &mut W) -> AvroResult<usize> {
+    writer.write_all(bytes).map_err(Details::WriteBytes)?;
+    Ok(bytes.len())
 }
 
 pub(crate) fn encode_long<W: Write>(i: i64, writer: W) -> AvroResult<usize> {
@@ -94,9 +100,7 @@ pub(crate) fn encode_internal<W: Write, S: Borrow<Schema>>(
                 Ok(0)
             }
         }
-        Value::Boolean(b) => writer
-            .write(&[u8::from(*b)])
-            .map_err(|e| Details::WriteBytes(e).into()),
+        Value::Boolean(b) => write_bytes(&[u8::from(*b)], writer),
         // Pattern | Pattern here to signify that these _must_ have the same encoding.
         Value::Int(i) | Value::Date(i) | Value::TimeMillis(i) => encode_int(*i, writer),
         Value::Long(i)
@@ -107,12 +111,8 @@ pub(crate) fn encode_internal<W: Write, S: Borrow<Schema>>(
         | Value::LocalTimestampMicros(i)
         | Value::LocalTimestampNanos(i)
         | Value::TimeMicros(i) => encode_long(*i, writer),
-        Value::Float(x) => writer
-            .write(&x.to_le_bytes())
-            .map_err(|e| Details::WriteBytes(e).into()),
-        Value::Double(x) => writer
-            .write(&x.to_le_bytes())
-            .map_err(|e| Details::WriteBytes(e).into()),
+        Value::Float(x) => write_bytes(&x.to_le_bytes(), writer),
+        Value::Double(x) => write_bytes(&x.to_le_bytes(), writer),
         Value::Decimal(decimal) => match schema {
             Schema::Decimal(DecimalSchema { inner, .. }) => match inner {
                 InnerDecimalSchema::Fixed(fixed) => {
@@ -141,9 +141,7 @@ pub(crate) fn encode_internal<W: Write, S: Borrow<Schema>>(
         },
         &Value::Duration(duration) => {
             let slice: [u8; 12] = duration.into();
-            writer
-                .write(&slice)
-                .map_err(|e| Details::WriteBytes(e).into())
+            write_bytes(&slice, writer)
         }
         Value::Uuid(uuid) => match *schema {
             Schema::Uuid(UuidSchema::String) | Schema::String => encode_bytes(
@@ -163,9 +161,7 @@ pub(crate) fn encode_internal<W: Write, S: Borrow<Schema>>(
                 }
 
                 let bytes = uuid.as_bytes();
-                writer
-                    .write(bytes.as_slice())
-                    .map_err(|e| Details::WriteBytes(e).into())
+                write_bytes(bytes.as_slice(), writer)
             }
             _ => Err(Details::EncodeValueAsSchemaError {
                 value_kind: ValueKind::Uuid,
@@ -180,15 +176,11 @@ pub(crate) fn encode_internal<W: Write, S: Borrow<Schema>>(
         },
         Value::BigDecimal(bg) => {
             let buf: Vec<u8> = serialize_big_decimal(bg)?;
-            writer
-                .write(buf.as_slice())
-                .map_err(|e| Details::WriteBytes(e).into())
+            write_bytes(buf.as_slice(), writer)
         }
         Value::Bytes(bytes) => match *schema {
             Schema::Bytes | Schema::Uuid(UuidSchema::Bytes) => encode_bytes(bytes, writer),
-            Schema::Fixed { .. } => writer
-                .write(bytes.as_slice())
-                .map_err(|e| Details::WriteBytes(e).into()),
+            Schema::Fixed { .. } => write_bytes(bytes.as_slice(), writer),
             _ => Err(Details::EncodeValueAsSchemaError {
                 value_kind: ValueKind::Bytes,
                 supported_schema: vec![SchemaKind::Bytes, SchemaKind::Fixed, SchemaKind::Uuid],
@@ -211,9 +203,7 @@ pub(crate) fn encode_internal<W: Write, S: Borrow<Schema>>(
             }
             .into()),
         },
-        Value::Fixed(_, bytes) => writer
-            .write(bytes.as_slice())
-            .map_err(|e| Details::WriteBytes(e).into()),
+        Value::Fixed(_, bytes) => write_bytes(bytes.as_slice(), writer),
         Value::Enum(i, _) => encode_int(*i as i32, writer),
         Value::Union(idx, item) => {
             if let Schema::Union(ref inner) = *schema {
@@ -221,8 +211,10 @@ pub(crate) fn encode_internal<W: Write, S: Borrow<Schema>>(
                     .schemas
                     .get(*idx as usize)
                     .expect("Invalid Union validation occurred");
-                encode_long(*idx as i64, &mut *writer)?;
-                encode_internal(item, inner_schema, names, enclosing_namespace, &mut *writer)
+                let index_bytes = encode_long(*idx as i64, &mut *writer)?;
+                let item_bytes =
+                    encode_internal(item, inner_schema, names, enclosing_namespace, &mut *writer)?;
+                Ok(index_bytes + item_bytes)
             } else {
                 error!("invalid schema type for Union: {schema:?}");
                 Err(Details::EncodeValueAsSchemaError {
@@ -234,10 +226,11 @@ pub(crate) fn encode_internal<W: Write, S: Borrow<Schema>>(
         }
         Value::Array(items) => {
             if let Schema::Array(ref inner) = *schema {
+                let mut written_bytes = 0;
                 if !items.is_empty() {
-                    encode_long(items.len() as i64, &mut *writer)?;
+                    written_bytes += encode_long(items.len() as i64, &mut *writer)?;
                     for item in items.iter() {
-                        encode_internal(
+                        written_bytes += encode_internal(
                             item,
                             &inner.items,
                             names,
@@ -246,9 +239,7 @@ pub(crate) fn encode_internal<W: Write, S: Borrow<Schema>>(
                         )?;
                     }
                 }
-                writer
-                    .write(&[0u8])
-                    .map_err(|e| Details::WriteBytes(e).into())
+                Ok(written_bytes + write_bytes(&[0u8], writer)?)
             } else {
                 error!("invalid schema type for Array: {schema:?}");
                 Err(Details::EncodeValueAsSchemaError {
@@ -260,11 +251,12 @@ pub(crate) fn encode_internal<W: Write, S: Borrow<Schema>>(
         }
         Value::Map(items) => {
             if let Schema::Map(ref inner) = *schema {
+                let mut written_bytes = 0;
                 if !items.is_empty() {
-                    encode_long(items.len() as i64, &mut *writer)?;
+                    written_bytes += encode_long(items.len() as i64, &mut *writer)?;
                     for (key, value) in items {
-                        encode_bytes(key, &mut *writer)?;
-                        encode_internal(
+                        written_bytes += encode_bytes(key, &mut *writer)?;
+                        written_bytes += encode_internal(
                             value,
                             &inner.types,
                             names,
@@ -273,9 +265,7 @@ pub(crate) fn encode_internal<W: Write, S: Borrow<Schema>>(
                         )?;
                     }
                 }
-                writer
-                    .write(&[0u8])
-                    .map_err(|e| Details::WriteBytes(e).into())
+                Ok(written_bytes + write_bytes(&[0u8], writer)?)
             } else {
                 error!("invalid schema type for Map: {schema:?}");
                 Err(Details::EncodeValueAsSchemaError {
@@ -339,9 +329,7 @@ pub(crate) fn encode_internal<W: Write, S: Borrow<Schema>>(
                     );
                     match encode_res {
                         Ok(_) => {
-                            return writer
-                                .write(union_buffer.as_slice())
-                                .map_err(|e| Details::WriteBytes(e).into());
+                            return write_bytes(union_buffer.as_slice(), writer);
                         }
                         Err(_) => {
                             union_buffer.clear(); //undo any partial encoding
